@@ -72,6 +72,18 @@ def mutate(data, rnd):
     return b"\n".join(lines)[:65536]
 
 
+def spinfo_message(stdout):
+    """an entry 3 (warning) or 4 (error) of a block SPINFO in the output - not any line that starts with 4"""
+    inside = False
+    for l in stdout.split("\n"):
+        t = l.split()
+        if t and t[0].lower() == "block":
+            inside = len(t) > 1 and t[1].upper() == "SPINFO"
+        elif inside and len(t) > 1 and t[0] in ("3", "4"):
+            return True
+    return False
+
+
 def judge(chk, r, kind, inp, argv_desc, fmt):
     """oracle over one recorded execution"""
     chk.evaluations += 1
@@ -98,7 +110,7 @@ def judge(chk, r, kind, inp, argv_desc, fmt):
         chk.add_fail("C14:slow:%s" % kind, "took %.1fs" % r["wall"], case)
     # every failure exit is accompanied by a diagnostic
     if r["exit"] == 1:
-        diag = bool(r["stderr"].strip()) or bool(re.search(r"(?m)^\s*4\s+\S", r["stdout"]))
+        diag = bool(r["stderr"].strip()) or spinfo_message(r["stdout"])
         chk.add_cell(cell + "|exit1-has-diagnostic", 1, 0 if diag else 1, None)
         if not diag:
             chk.add_fail("C14:failure-exit-without-diagnostic", "exit status 1 with empty stderr and no SPINFO[4]", case)
@@ -226,6 +238,30 @@ def run(chk):
         jobs.append(("random-bytes", rnd.choice(["slha", "gm2calc", "thdm"]), bytes(rnd.randrange(256) for _ in range(n)), rnd.random() < 0.3, None, None))
     optpool = ["--slha-input-file=", "--gm2calc-input-file=", "--thdm-input-file=", "--help", "-h", "--version", "-v", "--bogus", "", "-", "--slha-input-file", "--thdm-input-file=/nonexistent/file",
                "--gm2calc-input-file=/", "--slha-input-file=/dev/null", "--slha-input-file=-", "--", "-x", "--help=1", "--slha-input-file=" + "A" * 5000]
+    # systematic: points with a flagged problem (tachyon) or warning in every output format, with and without force-output: the failure exit needs its diagnostic in each
+    def set_line(data, block, key, value):
+        out, cur, done = [], None, False
+        for l in data.split(b"\n"):
+            t = l.split(b"#")[0].split()
+            if t and t[0].lower() == b"block":
+                cur = t[1].upper() if len(t) > 1 else b""
+            elif cur == block.upper() and t and t[0] == key and not done:
+                l = b"   " + key + b"   " + value
+                done = True
+            out.append(l)
+        return b"\n".join(out) if done else None
+    for name, data in seeds:
+        fmt = fmt_of(name, data)
+        eds = {"gm2calc": [(b"GM2CalcInput", b"13", b"-900"), (b"GM2CalcInput", b"14", b"-900"), (b"GM2CalcInput", b"20", b"-3000"), (b"GM2CalcInput", b"3", b"1e4"),
+                           (b"GM2CalcInput", b"26", b"3000000"), (b"GM2CalcInput", b"4", b"1e6"), (b"GM2CalcInput", b"25", b"-3000000")],   # tachyons through left-right mixing: no negative soft mass to warn about
+               "slha": [(b"MSOFT", b"35", b"-2000"), (b"MSOFT", b"36", b"-2000"), (b"MSOFT", b"46", b"-5000"), (b"HMIX", b"2", b"1e4"), (b"AE", b"3", b"3   3000000"), (b"HMIX", b"1", b"1e6")]}.get(fmt, [])
+        for blk, key, val in eds:
+            m = set_line(data, blk, key, val)
+            if m is None:
+                continue
+            for fo in range(5):
+                for force in (0, 1):
+                    jobs.append(("problem-point", fmt, m + b"\n" + cli.config_block(fo, 2, rnd.randrange(2), force, 0, rnd.randrange(2), 1).encode(), False, None, None))   # (the configuration last: it overrides a block the file may carry)
     # systematic: every input option with unreadable files whose names carry characters that are special to formatting or shells
     for o in ("--slha-input-file=", "--gm2calc-input-file=", "--thdm-input-file="):
         for nm in ("/nonexistent/100%.in", "/nonexistent/point_%s.in", "/nonexistent/%n%n%n%n", "/nonexistent/%1$s", "/nonexistent/%", "/nonexistent/%%", "/nonexistent/%d%d%d%d%d%d%d%d",
